@@ -141,6 +141,11 @@ class Run:
         self.violations.append((mechanism, summary, case))
         return True
 
+    def enough(self, n=40):
+        """True once this (shard) run holds so many witnesses that continuing only costs time - broken trees
+        often make every case slow (timeouts); the verdict is already 'violated'."""
+        return len(self.violations) >= n
+
     def inconclusive_because(self, reason):
         self.inconclusive.append(reason)
 
